@@ -67,6 +67,9 @@ func fixedCases() []corr.Case {
 		mk("fixed-failed-set", "new lru 5", "set 0 1 1", "set 1 2 p", "keys", "exist 1", "get 1", "sgr 2 3 p", "sia 3 4 p", "stats", "sia 0 9 p", "keys", "set 0 5 p", "items",
 			"set 4 0 1", "sgr 4 0 1", "sia 4 0 1", "sia 0 0 1", "stats", "set 4 6 2", "set 5 7 2", "set 6 8 2", "keys", "stats"),
 		mk("fixed-failed-set", "new tiny 3", "set 0 1 p", "new lru 0", "set 0 1 p", "stats", "wnew lru 4 2 8 mod", "set 0 1 p"))
+	for _, kd := range []string{"lru", "tiny"} {
+		out = append(out, mk("fixed-default-after-configured", "wnew "+kd+" 5 2 8 mod", "set 0 1 1", "wnew "+kd+" 5 73 12 dmod", "set 0 1 1", "set 2 2 1", "set 4 3 1", "set 6 4 1", "set 8 5 1", "set 10 6 1", "get 0", "exist 2", "wnew "+kd+" 5 72 12 dmod"))
+	}
 	// out-of-regime streams: the model follows the code also for negative sizes (size accounting drifts, Back() of an empty list)
 	out = append(out,
 		mk("fixed-negative", "new lru 1", "set 0 1 -5", "set 1 2 6", "stats", "del 0", "stats", "set 2 3 0", "stats"),
@@ -208,6 +211,28 @@ func genCase(r *rng.R, tier string, i int) corr.Case {
 		capacity = r.Range(0, 14)
 		head := fmt.Sprintf("wnew %s %d %d %d mod", kd, capacity, shards, u)
 		tag := "wide-mod-" + kd
+		if r.Chance(1, 6) {
+			// construction order: a wide cache configured WithPrime(p) first, then one built with NO option — it must have the
+			// default 73 shards (keys 0…11 each alone in a shard, per-shard capacity cap/73+1), not p
+			c2 := r.Range(0, 150)
+			lines := []string{head, fmt.Sprintf("set 1 %d 1", 900001), fmt.Sprintf("wnew %s %d 73 12 dmod", kd, c2)}
+			per2 := c2/73 + 1
+			for j := 0; j < n; j++ {
+				g.line++
+				k := r.Intn(12)
+				switch x := r.Intn(10); {
+				case x < 6:
+					lines = append(lines, fmt.Sprintf("set %d %d %d", k, g.line, r.Range(0, per2)))
+				case x < 8:
+					lines = append(lines, fmt.Sprintf("get %d", k))
+				case x < 9:
+					lines = append(lines, fmt.Sprintf("del %d", k))
+				default:
+					lines = append(lines, fmt.Sprintf("exist %d", k))
+				}
+			}
+			return corr.Case{Tag: "wide-default-after-configured-" + kd, Lines: lines}
+		}
 		if x := r.Intn(3); x > 0 {
 			// table routing: keys of every type remap supports (negative ints, int64/uint64 extremes, short and long
 			// strings); the shard of each key is read from the real remap package (simple or xxhash route)
